@@ -35,6 +35,7 @@
 #include <vector>
 
 #include <dlfcn.h>
+#include <fcntl.h>
 #include <poll.h>
 #include <pthread.h>
 #include <semaphore.h>
@@ -178,7 +179,7 @@ void run_life(int fd, const std::vector<std::string>& toks) {
     Probe* f = new Probe();                 // never destroyed: the child leaves with _exit
     size_t seen = 0;
     int cur;                                // parking place of the filtering thread
-    bool joined = false;
+    bool joined = false; (void)joined;
     std::thread* helper = nullptr;          // asynchronous command not yet completed
     std::atomic<bool>* helper_done = nullptr;
     int helper_sig0 = 0;
@@ -246,7 +247,9 @@ void run_life(int fd, const std::vector<std::string>& toks) {
             g_free.store(true);
             if (held) sem_post(&g_go);
             if (helper) finish_helper();
-            if (!joined) { f->wait(); joined = true; }
+            bool ok = f->wait();            // a second wait() finds the thread not joinable and returns true
+            joined = true;
+            if (!ok) { emit(fd, "wait-false"); return; }
             cur = 'f';
             observe(tok, "");
         } else {
@@ -297,6 +300,9 @@ std::string run_case(const std::string& op, long watchdog_ms, const std::vector<
     if (pid < 0) return "fork-failed";
     if (pid == 0) {
         close(p[0]);
+        // the library reports some conditions on std::cout / std::cerr; keep them out of the protocol
+        int dn = open("/dev/null", O_WRONLY);
+        if (dn >= 0) { dup2(dn, 1); close(dn); }
         if (op == "life") run_life(p[1], toks); else run_free(p[1], toks);
         close(p[1]);
         _exit(0);
